@@ -359,7 +359,7 @@ def eri(n, seed):
 
 class FCIDUMP(Fmt):
     name = "fcidump"
-    space = [("norb", [2, 1, 3, 4]), ("nelec", [2, 0, 5]), ("ms2", [0, 1]), ("core", [1.5, -0.0625]), ("end", ["&END", "/", "/END"]), ("name", ["FCIDUMP", "m.fcidump", "x.FCIDUMP.y"])]
+    space = [("norb", [2, 1, 3, 4]), ("nelec", [2, 0, 5]), ("ms2", [0, 1]), ("core", [1.5, -0.0625, None]), ("end", ["&END", "/", "/END"]), ("name", ["FCIDUMP", "m.fcidump", "x.FCIDUMP.y"])]
 
     def make(self, c, seed):
         n = c["norb"]
@@ -367,7 +367,7 @@ class FCIDUMP(Fmt):
         chem = eri(n, seed)
         phys = chem.transpose(0, 2, 1, 3)  # <ij|kl> = (ik|jl)
         text = writers.fcidump(one, phys, c["core"], c["nelec"], c["ms2"], c["end"])
-        exp = [("one_ints.core_mo", one, 1e-15), ("two_ints.two_mo", phys, 1e-15), ("core_energy", c["core"], 1e-15), ("nelec", c["nelec"], 0), ("spinpol", c["ms2"], 0)]
+        exp = [("one_ints.core_mo", one, 1e-15), ("two_ints.two_mo", phys, 1e-15), ("core_energy", c["core"] if c["core"] is not None else 0.0, 1e-15), ("nelec", c["nelec"], 0), ("spinpol", c["ms2"], 0)]
         return c["name"], text, exp, {}
 
 
